@@ -45,6 +45,16 @@ REQUIRE = {
     "c2_mouse_cells_after_history": 1500,
     "c2b_button1_cells_after_history": 100,
     "c3_move_evals_after_history": 150,
+    # clause 1 through the cache right after an action on the same tree (no harness re-render in between)
+    "c1_cursor_evals_after_press": 300,
+    "c1_cursor_evals_after_move": 300,
+    "c1_cursor_evals_after_key": 300,
+    "keys_pressed": 200,
+    "keys_handled": 30,
+    # the pressed selectable leaf is the one whose cursor the root reports
+    "c4_press_cursor_evals": 150,
+    # accepted moves onto real Edit leaves: cursor row judged (captions that wrap included)
+    "c3_edit_accepted_row_checked": 60,
     # every container/decoration of the statement was part of judged cases
     **{f"judged_with:{k}": 8 for k in ("Pile", "Columns", "Frame", "Filler", "Padding", "Overlay", "BoxAdapter", "LineBox", "AttrMap", "GridFlow", "ListBox", "Edit")},
     # mechanism functions reached
@@ -113,6 +123,13 @@ ASSUMES = [
     "C01's contract is part of the domain: a tree in which some flow container's rows() (computed, not read from the canvas cache) differs "
     "from the rows of the canvas it rendered is skipped (skipped_precondition:rows_method_disagrees_with_rendered_rows): with the canvas "
     "cache enabled its parent sees one height while rendering and another afterwards (e.g. Pile of fixed-only children as a 'pack' column)",
+    "after a button-1 press (fresh tree), after each accepted move_cursor_to_coords and after each navigation key, clause 1 is evaluated "
+    "WITHOUT a harness re-render: the canvases of the previous render are alive and the cache is enabled, so render(size, True) is what a "
+    "screen redraw would show (kind suffix :after-press / :after-move / :after-key); what a key does is C08's business and exceptions from "
+    "keypress are not judged",
+    "c4: if a button-1 press is delivered to a selectable leaf that has a cursor and every container on the path moves the focus on a "
+    "press (no Scrollable/ScrollBar, not an Overlay's bottom), the root must report the leaf's own cursor translated by the leaf's top-left "
+    "as read off a fresh render",
     "a fixed spy raises ValueError when handed a non-() size, like urwid's own fixed-only widgets raise WidgetError",
     "size histories: the fit precondition is established at the probe size S only; the other sizes need not fit and exceptions raised while "
     "touching them are counted, not judged; if rendering at S after the history shows another picture than the canvas kept for S (scroll "
@@ -540,8 +557,12 @@ class Case:
         self.collect.append({"clause": clause, "kind": kind, "path": path, "msg": msg, "op": op, "leaf": leaf.sid if leaf is not None else None})
 
     # ---- clause 1
-    def clause1(self, o, after=None):
+    def clause1(self, o, after=None, when=None, extra=None):
+        """when = None: right after the observing render; 'after-press' / 'after-move' / 'after-key': the tree has just been
+        acted upon and has NOT been re-rendered by the harness -- the canvases of the previous render are alive and the cache is
+        enabled, so render(size, True) is answered from the cache unless the action invalidated it (as a screen redraw would)"""
         tag = "c1"
+        sfx = f":{when}" if when else ""
         ctx = self.ctx
         chain = focus_chain(self.root)
         onchain = {id(n) for n in chain}
@@ -565,10 +586,12 @@ class Case:
                     ctx.count("c1_size_not_observed")
                     continue
             op = {"op": "cursor", "node": n.kind, "size": list(sz), "on_focus_chain": id(n) in onchain, "after_moves": after or []}
+            if extra:
+                op.update(extra)
             try:
                 rep = w.get_cursor_coords(sz)
             except Exception as e:  # noqa: BLE001
-                self.viol(tag, f"get_cursor_coords-raise:{exc_kind(e)}", None, f"{n.kind}.get_cursor_coords({sz}) raised {type(e).__name__}: {e}", op)
+                self.viol(tag, f"get_cursor_coords-raise:{exc_kind(e)}{sfx}", None, f"{n.kind}.get_cursor_coords({sz}) raised {type(e).__name__}: {e}", op)
                 self._blame(n, sz)
                 continue
             try:
@@ -579,6 +602,8 @@ class Case:
                 ctx.count("c1_rerender_error")
                 continue
             ctx.count("c1_cursor_evals")
+            if when:
+                ctx.count("c1_cursor_evals_" + when.replace("-", "_"))
             if o.after_history:
                 ctx.count("c1_cursor_evals_after_history")
             ctx.count("c1_cursor_evals_on_chain" if id(n) in onchain else "c1_cursor_evals_off_chain")
@@ -588,7 +613,7 @@ class Case:
             cur_t = tuple(cur) if cur is not None else None
             if rep_t != cur_t:
                 kind = "reported-None-drawn-cursor" if rep_t is None else ("reported-cursor-none-drawn" if cur_t is None else "coords-differ")
-                self.viol(tag, kind, None, f"{n.kind} at {sz}: get_cursor_coords={rep_t} but render(focus=True).cursor={cur_t}", op)
+                self.viol(tag, kind + sfx, None, f"{n.kind} at {sz}{' ' + when if when else ''}: get_cursor_coords={rep_t} but render(focus=True).cursor={cur_t}", op)
                 self._blame(n, sz)
 
     def _blame(self, n, sz):
@@ -708,6 +733,60 @@ class Case:
                 ctx.count("c2b_button1_cells_after_history")
             entries = [e for e in self.log if e[0] == "mouse"]
             self.expect_mouse(of, cell, entries, "c2b", op)
+            if self.focus:
+                self.after_press(root, of, cell, entries, op)
+
+    def after_press(self, root, of, cell, entries, op):
+        """the press may have moved the focus: (a) every container must still report the cursor that its focused rendering
+        shows -- rendering goes through the cache, the canvas drawn before the press is still alive; (b) if the press reached a
+        selectable leaf that has a cursor, the root must now report exactly that leaf's cursor"""
+        ctx = self.ctx
+        self.clause1(of, when="after-press", extra={"after_press": [cell[0], cell[1]]})
+        lf = of.cellmap[cell]
+        if not (len(entries) == 1 and entries[0][1] == lf.sid):
+            return
+        if not self.press_moves_cursor_to(lf) or not hasattr(root.w, "get_cursor_coords"):
+            ctx.count("c4_press_not_judged_leaf_or_path_without_cursor")
+            return
+        o3 = observe(root, self.size, self.log, True)
+        if not o3.ok or lf.sid not in o3.rects:
+            ctx.count("c4_precondition_lost_after_press")
+            return
+        try:
+            own = lf.w.get_cursor_coords(lf.w.last_size)
+        except Exception:  # noqa: BLE001
+            own = None
+        if own is None:
+            ctx.count("c4_pressed_leaf_shows_no_cursor")
+            return
+        left, top = o3.rects[lf.sid][:2]
+        want = (left + own[0], top + own[1])
+        try:
+            rep = root.w.get_cursor_coords(self.size)
+        except Exception as e:  # noqa: BLE001
+            self.viol("c4", f"get_cursor_coords-after-press-raise:{exc_kind(e)}", lf, f"after button-1 press at {cell}: {type(e).__name__}: {e}", op)
+            return
+        ctx.count("c4_press_cursor_evals")
+        if rep is None or tuple(rep) != want:
+            self.viol(
+                "c4",
+                "cursor-not-on-pressed-leaf" + (":None" if rep is None else ""),
+                lf,
+                f"button-1 press at {cell} was delivered to selectable leaf '{lf.glyph}' (now drawn at {(left, top)}, own cursor {tuple(own)}) "
+                f"but the root reports cursor {rep}, expected {want}",
+                op,
+            )
+
+    FOCUS_FOLLOWS_PRESS = {"Pile", "Columns", "Frame", "ListBox", "GridFlow", "Filler", "Padding", "AttrMap", "LineBox", "BoxAdapter", "Overlay"}
+
+    def press_moves_cursor_to(self, lf):
+        if lf.kind == "spy":
+            r = lf.recipe
+            if not (r.get("cp", True) and r.get("sel", True)):
+                return False
+        if under_overlay_bottom(lf):
+            return False
+        return all(a.kind in self.FOCUS_FOLLOWS_PRESS and hasattr(a.w, "get_cursor_coords") for a in lf.path_kinds())
 
     # ---- clause 3
     def eligible_move(self, lf):
@@ -756,7 +835,7 @@ class Case:
             elif mine and (mine[-1][3], mine[-1][4]) == (lx, ly):
                 # an Edit refuses rows that hold only its caption: its own logged answer is the reference
                 expect = bool(mine[-1][5])
-            elif ly in edit_rows_with_position(lf.recipe, lf.w.last_size[0] if lf.w.last_size else 0):
+            elif not lf.recipe.get("capsp") and ly in edit_rows_with_position(lf.recipe, lf.w.last_size[0] if lf.w.last_size else 0):
                 expect = True
             else:
                 ctx.count("c3_edit_answer_unknown_not_judged")
@@ -798,9 +877,13 @@ class Case:
                 continue
             history.append([cell[0], cell[1]])
             # accepted: the reported cursor must be on the requested row
+            # second half of the clause, independent of who is right about acceptance: whatever returned True (a spy, or a real
+            # Edit -- also for rows that hold only wrapped caption text), the reported cursor must now be on the requested row
             judge_row = True
             if lf.kind == "Edit":
-                judge_row = ly in edit_rows_with_position(lf.recipe, lf.w.last_size[0] if lf.w.last_size else 0)
+                ctx.count("c3_edit_accepted_row_checked")
+                if ly not in edit_rows_with_position(lf.recipe, lf.w.last_size[0] if lf.w.last_size else 0):
+                    ctx.count("c3_edit_accepted_on_row_without_position")
             if judge_row and not bad:
                 try:
                     rep = root.w.get_cursor_coords(self.size)
@@ -815,13 +898,48 @@ class Case:
                     ctx.count("c3_cursor_also_on_requested_col")
             if bad:
                 break
-            # state changed: re-observe; the precondition must still hold to go on
+            # state changed.  First, without re-rendering (canvases of the last render alive, cache enabled): does every
+            # container still report the cursor its (possibly cached) focused rendering shows?
+            if len(history) <= 6:
+                self.clause1(o, after=list(history), when="after-move")
+            # then re-observe; the precondition must still hold to go on
             o = self.look(root)
             if not o.ok:
                 ctx.count("c3_precondition_lost_after_move")
                 break
             if len(history) <= 3:
                 self.clause1(o, after=list(history))
+
+    # ---- keys that move the focus
+    KEYS = ("down", "up", "right", "left", "tab", "page down", "home", "end", "shift tab")
+
+    def key_walk(self, o):
+        """a few navigation keys on the same tree; after each one clause 1 is evaluated through the cache (the canvas of the
+        last render is alive), then the tree is observed afresh.  What a key does is C08's business; exceptions are not judged."""
+        ctx = self.ctx
+        root = self.root
+        if root.is_leaf() or not root.w.selectable():
+            return
+        rng = ctx.subrng("keys", self.key, self.size)
+        pressed = []
+        for _ in range(ctx.pick(4, 8)):
+            key = rng.choice(self.KEYS)
+            try:
+                with warnings.catch_warnings():
+                    warnings.simplefilter("ignore")
+                    res = root.w.keypress(self.size, key)
+            except Exception:  # noqa: BLE001
+                ctx.count("keys_raised_not_judged")
+                return
+            pressed.append(key)
+            ctx.count("keys_pressed")
+            if res is None:
+                ctx.count("keys_handled")
+            self.clause1(o, after=list(self.moves_done), when="after-key", extra={"keys": list(pressed)})
+            o = self.look(root)
+            if not o.ok:
+                ctx.count("keys_precondition_lost")
+                return
 
     # ---- driver
     def run(self):
@@ -871,13 +989,18 @@ class Case:
             if not o.ok:
                 return o0
             self.clause1(o)
-            self.clause2(o)
+            o2 = self.clause2(o)
+            if o2 is not None:
+                self.key_walk(o2)
             self.clause2b(o0)
             return o0
         self.clause1(o)
         o2 = self.clause2(o)
         if o2 is not None:
             self.clause3(o2)
+            o3 = self.look(root)
+            if o3.ok:
+                self.key_walk(o3)
         self.clause2b(o)
         return o
 
@@ -1063,6 +1186,18 @@ def blame(recipe, size, focus, v, hist=None):
     if st is None:
         return None
     nanc = len(st[3].path_kinds())
+    if v["clause"] == "c3" and st[3].kind == "Edit" and v["kind"].startswith("cursor-not-on-requested-row"):
+        # the real leaf itself may be the one that accepts a cell and then puts the cursor elsewhere
+        root, o, log, leaf = st
+        left, top = o.rects[leaf.sid][:2]
+        lx, ly = op["col"] - left, op["row"] - top
+        try:
+            if leaf.w.move_cursor_to_coords(leaf.w.last_size, lx, ly):
+                own = leaf.w.get_cursor_coords(leaf.w.last_size)
+                if own is None or own[1] != ly:
+                    return "Edit[accepted-row-without-cursor-position]", "flow"
+        except Exception:  # noqa: BLE001
+            pass
     for depth in range(nanc - 1, 0, -1):  # innermost ancestor first; index 0 is the root itself
         st = setup()
         if st is None:
@@ -1114,7 +1249,7 @@ def blame(recipe, size, focus, v, hist=None):
                     else:
                         expect = on_row
                     pk = move_kind(ret, mine, expect, lx, ly)
-                    if pk is None and ret and on_row and hasattr(anc.w, "get_cursor_coords"):
+                    if pk is None and ret and hasattr(anc.w, "get_cursor_coords"):
                         rep_ = anc.w.get_cursor_coords(sz)
                         if rep_ is None or rep_[1] != r:
                             pk = "cursor-not-on-requested-row" + (":None" if rep_ is None else "")
@@ -1337,6 +1472,9 @@ SEEDS = [
         },
         [12, 7],
     ),
+    ({"k": "Pile", "items": [[["pack"], _spy(rows=1)], [["pack"], {"k": "Edit", "cap": 9, "capsp": True, "len": 3, "pos": 0, "wrap": "space"}]]}, [10]),
+    ({"k": "Filler", "c": {"k": "Edit", "cap": 7, "len": 4, "pos": 1, "wrap": "any"}, "valign": "top", "height": "pack"}, [3, 6]),
+    ({"k": "Padding", "c": {"k": "Edit", "cap": 8, "capsp": True, "len": 2, "pos": 0, "wrap": "space"}, "align": "left", "width": 8, "left": 1}, [12]),
     ({"k": "BoxAdapter", "c": _spy("box"), "h": 3}, [5]),
     ({"k": "LineBox", "c": _spy()}, [6]),
     ({"k": "GridFlow", "cells": [_spy(), _spy(), _spy()], "cw": 3, "hs": 1, "vs": 1, "align": "center"}, [8]),
